@@ -24,8 +24,8 @@ def mix(z):
 
 
 DEFAULTS = dict(mode="b", n="-", s="-", T=1, min="-", max="-", skip="-", f=PS, p=1, oh="0,0,0,0", ic=0,
-                g=0, c=1, d=0, ja=0, js=0, grow=0, skew=0, off="0", x="", al=0, alm=0, budget=60000)
-ORDER = ["mode", "n", "s", "T", "min", "max", "skip", "f", "p", "oh", "ic", "g", "c", "d", "ja", "js", "grow", "skew", "off", "x", "al", "alm", "budget"]
+                g=0, c=1, d=0, ja=0, js=0, grow=0, skew=0, off="0", x="", al=0, alm=0, ly="00000", dk="", budget=60000)
+ORDER = ["mode", "n", "s", "T", "min", "max", "skip", "f", "p", "oh", "ic", "g", "c", "d", "ja", "js", "grow", "skew", "off", "x", "al", "alm", "ly", "dk", "budget"]
 
 
 def line_of(case):
@@ -260,6 +260,26 @@ def rand_case(rng, tuned=None, test=None, timed=True):
     if timed:
         k = rng.random()
         c["skip"] = "-" if k < 0.45 else ("0" if k < 0.55 else "1")
+    c["ly"], c["dk"] = "00000", ""
+    return c
+
+
+def with_layers(rng, c):
+    """Spread the option fields over the layers the runner merges (0 runner, 1 bench, 2 group,
+    3 outer group) and add losing values of set fields on layers further out."""
+    k = rng.random()
+    if k < 0.25:
+        return c
+    ly = [rng.randrange(0, 4) for _ in range(5)]
+    c["ly"] = "".join(str(x) for x in ly)
+    dk = []
+    other = {"n": lambda: rng.choice([0, 1, 2, 7, 50]), "s": lambda: rng.choice([0, 1, 2, 9]),
+             "min": lambda: rng.choice(["0:0", "0:1", "0:40", "1:0"]), "max": lambda: rng.choice(["0:0", "0:1", "0:40", "1:0"]),
+             "skip": lambda: rng.choice([0, 1])}
+    for i, f in enumerate(("n", "s", "min", "max", "skip")):
+        if str(c.get(f, "-")) != "-" and ly[i] < 3 and rng.random() < 0.35:
+            dk.append(f"{f}/{rng.randrange(ly[i] + 1, 4)}/{other[f]()}")
+    c["dk"] = ",".join(dk)
     return c
 
 
@@ -358,7 +378,18 @@ def tuned_cut_cases(rng, count):
 
 
 def make_stream(name, mode, cases, describe=None, hist=None, sb=True):
-    lines = [line_of(c) if not isinstance(c, str) else c for c in cases]
+    import random
+    import zlib
+    lines = []
+    for c in cases:
+        if isinstance(c, str):
+            lines.append(c)          # corpus lines are taken as they are
+            continue
+        c = dict(c)
+        if c.get("ly", "00000") == "00000" and not c.get("dk"):
+            # where each option field is set (runner / bench / group / outer group): drawn from the case itself
+            with_layers(random.Random(zlib.crc32(line_of(c).encode())), c)
+        lines.append(line_of(c))
     return Stream(name, mode, lines, compare=compare, nontrivial=nontrivial, model_input=model_input,
                   crate="hx-loop", drv="loop", impl_timeout=420, describe=describe, hist=hist, sb=sb)
 
@@ -419,7 +450,7 @@ def shrink_item(item, rerun_case):
     for _ in range(3):
         changed = False
         cands = []
-        for k, v in (("ja", 0), ("grow", 0), ("skew", 0), ("ic", "0000"), ("al", 0), ("alm", 0), ("oh", "0,0,0,0"), ("g", 0), ("d", 0)):
+        for k, v in (("ja", 0), ("grow", 0), ("skew", 0), ("ic", "0000"), ("dk", ""), ("ly", "00000"), ("al", 0), ("alm", 0), ("oh", "0,0,0,0"), ("g", 0), ("d", 0)):
             if str(cur[k]) != str(v):
                 cands.append({k: v})
         if cur["off"].replace("0", "").replace(",", "") != "":
@@ -464,20 +495,37 @@ E2E_ATTR = {
     "a_1_4_t13": ("a_1_4_t13", 1, 4, [1, 3]),
     "g_4_2_t12": ("grp::g_4_2_t12", 4, 2, [1, 2]),
     "g_3_2_t234": ("grp::g_3_2_t234", 3, 2, [2, 3, 4]),
+    # attribute / group level min_time, max_time = 0 (last field: "mx=0" when the effective ceiling is 0)
+    "a_5_3_t12_min0": ("a_5_3_t12_min0", 5, 3, [1, 2]),
+    "a_5_3_t12_max0": ("a_5_3_t12_max0", 5, 3, [1, 2], "mx=0"),
+    "g_4_2_t13_min0": ("gmin0::g_4_2_t13_min0", 4, 2, [1, 3]),
+    "g_3_2_t12_max0": ("gmax0::g_3_2_t12_max0", 3, 2, [1, 2], "mx=0"),
+    "g_3_2_t12_max100": ("gmax0::g_3_2_t12_max100", 3, 2, [1, 2]),
 }
 E2E_PLAIN = {"plain": "plain", "plain_inputs": "plain_inputs"}
 
 
-def e2e_case(bench, via, mode, n, s, threads):
-    return f"bench={bench} via={via} mode={mode} n={n} s={s} threads={','.join(str(t) for t in sorted(set(threads)))}"
+def e2e_case(bench, via, mode, n, s, threads, extra=""):
+    line = f"bench={bench} via={via} mode={mode} n={n} s={s} threads={','.join(str(t) for t in sorted(set(threads)))}"
+    return line + (" " + extra if extra else "")
 
 
 def e2e_cases(rng, count):
     cases = []
-    for tag, (_, n, s, th) in E2E_ATTR.items():
-        cases.append(e2e_case(tag, "attr", "b", n, s, th))
-        cases.append(e2e_case(tag, "attr", "t", n, s, th))
-        cases.append(e2e_case(tag, "attr+cli-n", "b", rng.choice([1, 2, 6, 9]), s, th))
+    for tag, spec in E2E_ATTR.items():
+        n, s, th = spec[1], spec[2], spec[3]
+        extra = spec[4] if len(spec) > 4 else ""
+        cases.append(e2e_case(tag, "attr", "b", n, s, th, extra))
+        cases.append(e2e_case(tag, "attr", "t", n, s, th, extra))
+        cases.append(e2e_case(tag, "attr+cli-n", "b", rng.choice([1, 2, 6, 9]), s, th, extra))
+    # builder calls before config_with_args(), nothing on the command line / in the environment
+    for n, s, th in ((7, 3, [1, 2]), (5, 2, [1, 2, 3]), (0, 3, [1, 2]), (1, 1, [4]), ("-", 2, [1, 3])):
+        cases.append(e2e_case("plain", "builder", "b", n, s, th))
+    cases.append(e2e_case("plain_inputs", "builder", "t", 4, 2, [2, 3]))
+    # the builder sets both, the environment only one of them
+    cases.append(e2e_case("plain", "builder+env-n", "b", 4, 3, [1, 2], "bn=9"))
+    cases.append(e2e_case("plain", "builder+env-s", "b", 7, 2, [1, 3], "bs=5"))
+    cases.append(e2e_case("plain_inputs", "builder+env-s", "b", 0, 2, [1, 2], "bs=4"))
     for th in ([1, 2, 3], [1], [3], [2, 4], [1, 4], [1, 2, 3, 4]):
         cases.append(e2e_case("plain", "cli", "b", 5, 3, th))
     cases.append(e2e_case("plain", "cli", "b", "-", 1, [1, 3]))      # default count 100
@@ -487,8 +535,15 @@ def e2e_cases(rng, count):
         th = sorted(rng.sample([1, 2, 3, 4], k))
         n = rng.choice([1, 1, 2, 3, 4, 5, 6, 7, 8, 11, 13])
         s = rng.choice([1, 1, 2, 3, 4, 5])
-        cases.append(e2e_case(rng.choice(list(E2E_PLAIN)), rng.choice(["cli", "cli", "env"]),
-                              "t" if rng.random() < 0.1 else "b", n, s, th))
+        via = rng.choice(["cli", "cli", "env", "builder", "builder", "builder+env-n", "builder+env-s"])
+        extra = ""
+        if via == "builder+env-n":
+            extra = "bn=%d" % rng.choice([x for x in (1, 3, 6, 10) if x != n])
+        elif via == "builder+env-s":
+            extra = "bs=%d" % rng.choice([x for x in (1, 2, 4, 6) if x != s])
+        if via == "builder" and rng.random() < 0.1:
+            n = 0
+        cases.append(e2e_case(rng.choice(list(E2E_PLAIN)), via, "t" if rng.random() < 0.1 else "b", n, s, th, extra))
     seen, out = set(), []
     for c in cases:
         if c not in seen:
@@ -518,7 +573,7 @@ def shrink_e2e(item, rerun_case):
         return (not sb.startswith("true")), impl, model, sb
 
     d = dict(tok.split("=", 1) for tok in item["case"].split(" "))
-    if d["via"] not in ("cli", "env"):
+    if d["via"] not in ("cli", "env", "builder"):
         return item
     best = None
     for _ in range(4):
